@@ -7,7 +7,7 @@ V = os.path.dirname(os.path.dirname(os.path.abspath(__file__)))
 props = {json.loads(l)["id"]: json.loads(l) for l in open(os.path.join(V, "properties.jsonl"))}
 only = sys.argv[1:]
 for d in sorted(os.listdir(os.path.join(V, "seeded"))):
-    m = re.match(r"^(C\d\d)_(m\d)$", d)
+    m = re.match(r"^(C\d\d)_(m\d+)$", d)
     if not m or (only and d not in only):
         continue
     pid, mk = m.groups()
